@@ -36,6 +36,7 @@ class Shim:
         self.report = report      # callable(trace) used just before os._exit
         self.injected = False
         self.span = None
+        self.open_files = []
 
     def rel(self, p):
         try:
@@ -64,6 +65,11 @@ class Shim:
     def die_or_raise(self):
         self.injected = True
         if self.mode == 'crash':
+            for w in list(self.open_files):      # what an early / torn flush had already made durable
+                try:
+                    w._flush_prefix(self.n)
+                except Exception:
+                    pass
             if self.report:
                 self.report(self.trace)
             os._exit(17)
@@ -71,40 +77,60 @@ class Shim:
 
 
 class FileWrap:
+    """Write handle with Python's buffering made explicit: write() only fills the buffer, the data
+    reaches the disk when the file is closed (flush).  At the injection point the first `n`
+    characters of everything buffered so far (including the write in flight) are made durable -
+    n = 0 is the usual case for a small file, the other cuts are early or torn flushes."""
+
     def __init__(self, shim, f, rel):
         self._s, self._f, self._rel, self._closed = shim, f, rel, False
+        self._pending = ''
+        shim.open_files.append(self)
+
+    def _flush_prefix(self, n):
+        part = self._pending[:n]
+        self._pending = ''
+        if part:
+            self._f.write(part)
+        self._f.flush()
 
     def write(self, data):
         s = self._s
-        if s.step(['W', self._rel, data if isinstance(data, str) else data.decode('latin-1')]):
-            part = data[:s.n]
-            if part:
-                self._f.write(part)
-            self._f.flush()
+        if not isinstance(data, str):
+            data = data.decode('latin-1')
+        inject = s.step(['W', self._rel, data])
+        self._pending += data
+        if inject:
+            self._flush_prefix(s.n)
             if s.mode == 'fault':
-                # the `with` block will still close the file
+                # the rest of the buffer is lost; the `with` block will still close the file
                 s.injected = True
                 raise OSError(errno.EIO, 'C15 injected I/O error')
             s.die_or_raise()
-        r = self._f.write(data)
-        self._f.flush()          # unbuffered: a completed write is on disk (model: Write is immediate)
-        return r
+        return len(data)
 
     def writelines(self, lines):
         for l in lines:
             self.write(l)
+
+    def flush(self):
+        pass          # tally never calls flush(); an explicit flush would be its own effect
 
     def close(self):
         if self._closed:
             return
         self._closed = True
         s = self._s
+        if self in s.open_files:
+            s.open_files.remove(self)
         if s.step(['C', self._rel]):
+            self._flush_prefix(s.n)
             if s.mode == 'fault':
                 s.injected = True
                 self._f.close()
                 raise OSError(errno.EIO, 'C15 injected I/O error')
             s.die_or_raise()
+        self._flush_prefix(len(self._pending))
         self._f.close()
 
     def __enter__(self):
@@ -420,6 +446,21 @@ def rules_of_text(kind, text, workdir):
     return res or {'error': 'child-died'}
 
 
+def pending_before(trace):
+    """for every step index: (open file, [data written to it so far and not yet closed])"""
+    out, rel, pieces = [], None, []
+    for e in trace:
+        out.append((rel, list(pieces)))
+        if e[0] in ('T', 'A'):
+            rel, pieces = e[1], []
+        elif e[0] == 'W' and e[1] == rel:
+            pieces.append(e[2])
+        elif e[0] == 'C' and e[1] == rel:
+            rel, pieces = None, []
+    out.append((rel, list(pieces)))
+    return out
+
+
 def tree_key(tree):
     return hashlib.sha1(json.dumps(tree, sort_keys=True).encode()).hexdigest()
 
@@ -452,11 +493,28 @@ def run_job(job):
         if sp and sp[1] is not None and tr.get('trace') is not None:
             a, b = sp
             cuts = job.get('cuts', {})
+            pend = pending_before(tr['trace'])
+
+            def cum_cuts(pieces):
+                out, base = {0}, 0
+                for d in pieces:
+                    for c in (cuts.get(d) or sorted({0, len(d) // 2, len(d)})):
+                        out.add(base + c)
+                    base += len(d)
+                return sorted(out)
             for k in range(a, b):
                 e = tr['trace'][k]
-                ns = [0]
+                rel, pieces = pend[k]
                 if e[0] == 'W':
-                    ns = cuts.get(e[2]) or sorted({0, len(e[2]) // 2, len(e[2])})
+                    base = sum(len(d) for d in pieces)
+                    ns = [base + c for c in (cuts.get(e[2]) or sorted({0, len(e[2]) // 2, len(e[2])}))]
+                elif pieces:
+                    # a file is open with buffered data while this step runs: nothing flushed yet (the usual
+                    # case for a small file), one torn flush, everything flushed
+                    cc = cum_cuts(pieces)
+                    ns = sorted({cc[0], cc[len(cc) // 2], cc[-1]}) if not job.get('all_cuts') else cc
+                else:
+                    ns = [0]
                 for n in ns:
                     scenarios.append({'mode': 'crash', 'k': k, 'n': n})
                     scenarios.append({'mode': 'fault', 'k': k, 'n': n})
